@@ -59,4 +59,39 @@ def plan (mode : NameMode) (files : List SeqFile) : List SigUnit :=
     let all := files.flatMap (fun f => f.records.map Prod.snd)
     if all.isEmpty then [] else [⟨some nm, recordedFilename (lastName files), all⟩]
 
+/-! ### where the signatures go: `-o FILE`, `--output-dir DIR`, or next to nothing (cwd) -/
+
+inductive OutMode where
+  /-- `-o FILE`: everything into one file, in order -/
+  | single
+  /-- `--output-dir DIR` (`existing` = the directory exists; it is not created) -/
+  | dir (existing : Bool)
+  /-- neither: `basename(input) + ".sig"` in the current directory -/
+  | cwd
+deriving DecidableEq, Repr
+
+/-- `os.path.basename` -/
+def basename (p : List Char) : List Char :=
+  (p.reverse.takeWhile (· ≠ '/')).reverse
+
+inductive OutErr where
+  /-- "must specify -o with --merge" / "--output-dir doesn't make sense with -o": `sys.exit(-1)` -/
+  | exit
+  /-- the output directory does not exist: `FileNotFoundError` when the first file is closed -/
+  | noDir
+deriving DecidableEq, Repr
+
+/-- the output file each signature set lands in, in order -/
+def planOutputs (mode : NameMode) (o : OutMode) (files : List SeqFile) :
+    Except OutErr (List (List Char × SigUnit)) :=
+  match mode, o with
+  | .merge _, .single => .ok ((plan mode files).map (fun u => ("out.sig".toList, u)))
+  | .merge _, _ => .error .exit
+  | _, .single => .ok ((plan mode files).map (fun u => ("out.sig".toList, u)))
+  | _, .dir ex =>
+    let us := plan mode files
+    if us.isEmpty then .ok [] else if !ex then .error .noDir
+    else .ok (us.map (fun u => ("outd/".toList ++ basename u.filename ++ ".sig".toList, u)))
+  | _, .cwd => .ok ((plan mode files).map (fun u => (basename u.filename ++ ".sig".toList, u)))
+
 end Sm.Sketch
